@@ -94,6 +94,17 @@ NStmts(blk) == Len(Flat(blk))
 NComp(blk)  == Cardinality({i \in 1..Len(Flat(blk)) : Flat(blk)[i].t \in Compound})
 VarsOf(blk, t) == LET fl == Flat(blk) IN {fl[i].v : i \in {j \in 1..Len(fl) : fl[j].t = t}}
 KindsOf(blk) == LET fl == Flat(blk) IN {fl[i].t : i \in 1..Len(fl)}
+\* the names that are LOCAL to the function: bound (or deleted) by some statement, wherever it stands; a name that
+\* is only read would be a global and is outside this model
+LocalVars(blk) ==
+  LET fl == Flat(blk)
+  IN UNION {  (IF fl[i].t \in {"asg", "wal", "for", "match", "del"} \/ (fl[i].t = "with" /\ fl[i].v # 0) THEN {fl[i].v} ELSE {})
+              \cup {fl[i].hs[j].v : j \in 1..Len(fl[i].hs)} : i \in 1..Len(fl) } \ {0}
+UsedVars(blk) ==
+  LET fl == Flat(blk)
+  IN UNION { IF fl[i].t \in {"read", "cread", "cex", "del"} THEN {fl[i].v}
+             ELSE IF fl[i].t = "comp" /\ fl[i].r # fl[i].v THEN {fl[i].r} ELSE {} : i \in 1..Len(fl) }
+Closed(blk) == UsedVars(blk) \subseteq LocalVars(blk)
 
 ---------------------------------------------------------------------------
 (* gen phase: program growth *)
@@ -179,7 +190,7 @@ WellFormed(p) == /\ WFBlock(p, FALSE)
 GenWellFormed == m = NoMachine => WellFormed(prog)
 GenBounded    == m = NoMachine => NStmts(prog) <= MaxStmts /\ NComp(prog) <= MaxComp
 
-PublishGen == (Dump /\ m = NoMachine /\ KindsOf(prog) \cap Observing # {}) =>
+PublishGen == (Dump /\ m = NoMachine /\ KindsOf(prog) \cap Observing # {} /\ Closed(prog)) =>
                  PrintT("@@" \o ToJson([prog |-> prog, n |-> NStmts(prog)]))
 
 ---------------------------------------------------------------------------
@@ -336,7 +347,7 @@ Binders(p, v) ==      \* the values v can legally hold: ids of the statements th
 
 \* checked in the first state of every program read from the file
 RunWellFormed == (m # NoMachine /\ m.word = <<>> /\ m.log = <<>> /\ Len(m.ctl) = 1) =>
-                     /\ WellFormed(prog)
+                     /\ WellFormed(prog) /\ Closed(prog)
                      /\ Cardinality(Ids(prog)) = NStmts(prog)      \* numbering is injective
                      /\ 0 \notin Ids(prog)
 
